@@ -178,7 +178,9 @@ def c19_sim_case(draw, sim):
     case = draw(simrun.sim_case(sims=[sim], nmax=12))
     if draw(st.integers(0, 4)) == 0:
         case['np0d'] = True
-    if case.get('R0') and draw(st.integers(0, 3)) == 0:
+    if case.get('R0') and sim in ('fast_SIR', 'fast_nonMarkov_SIR') and draw(st.integers(0, 3)) == 0:
+        # only where the docstring says that the two collections are not tested for consistency; elsewhere a node listed in both is a
+        # contradictory request (outside the domain: the unchanged Gillespie_SIR does not terminate on it when gamma = 0)
         case['overlap'] = True
     return case
 
